@@ -8,8 +8,8 @@
      - XZ:   a block decoder [bdec] that inverts the writer's payload for the blocks satisfying an
              arbitrary predicate [bgood] (covers both the abstract chain  blockdec pdec fdec  of
              XzProofs.v and the executable chain  xz_blockdec  of XzFormat.v);
-     - LZIP: pdec inverts penc for the (d, x) satisfying an arbitrary predicate [good] and reader
-             dictionaries in the range the header byte can announce;
+     - LZIP: pdec inverts penc for the byte strings x and dictionary sizes d satisfying an arbitrary
+             predicate [good], and reader dictionaries in the range the header byte can announce;
    and every theorem asks [bgood] / [good] of the blocks / members the writer cuts.  The proofs
    follow XzProofs.v / LzipProofs.v line by line; all parsing lemmas are reused from there. *)
 From LzVerif Require Import Base.Bytes Format.Crc Format.CrcProofs Format.Sha256 Format.Vli Format.VliProofs
@@ -410,8 +410,8 @@ Section LzCond.
   Variable penc : Z -> list Z -> list Z.
   Variable pdec : Z -> list Z -> outcome (list Z * list Z).
   Variable good : Z -> list Z -> Prop.
-  Hypothesis pdec_penc : forall d dd x tail, good d x -> d <= dd -> LZIP_MIN_DICT <= dd <= LZIP_MAX_DICT ->
-    pdec dd (penc d x ++ tail) = Ok (x, tail).
+  Hypothesis pdec_penc : forall d dd x tail, good d x -> bytes_ok x = true -> d <= dd ->
+    LZIP_MIN_DICT <= dd <= LZIP_MAX_DICT -> pdec dd (penc d x ++ tail) = Ok (x, tail).
 
   Definition lm_ok_c (m : lzm) : Prop := lm_ok penc m /\ good (lm_dict m) (lm_content m).
 
@@ -423,7 +423,7 @@ Section LzCond.
   Proof.
     intros (((dd & Hd & Hle) & Hb & Hc64 & Hp64) & Hg). unfold lm_bytes, lz_member. rewrite <- !app_assoc.
     cbn [lzd_members]. rewrite (lz_header_ok first _ dd) by exact Hd. cbn [obind].
-    rewrite (pdec_penc _ _ _ _ Hg Hle (lzip_decode_dict_range _ _ Hd)). cbn [obind].
+    rewrite (pdec_penc _ _ _ _ Hg Hb Hle (lzip_decode_dict_range _ _ Hd)). cbn [obind].
     set (payload := penc (lm_dict m) (lm_content m)) in *.
     set (c := lm_content m) in *.
     set (tail := le_bytes 4 (crc32 c) ++ le_bytes 8 (zlen c) ++
